@@ -249,6 +249,10 @@ func (r *Run) Finish() int {
 	if r.extra["infra_failure"] == true {
 		return 2
 	}
+	if len(r.samples) == 0 {
+		fmt.Fprintln(os.Stderr, "INCONCLUSIVE: no case was sampled")
+		return 2
+	}
 	if len(r.distinct) < r.MinDistinct || r.evaluations == 0 {
 		fmt.Fprintf(os.Stderr, "INCONCLUSIVE: only %d distinct non-trivial cases (need %d)\n", len(r.distinct), r.MinDistinct)
 		return 2
